@@ -128,7 +128,8 @@ def make_import_model(spec, wseed: int, plain: set, fold_bn: bool = False):
         if n['op'] == 'bn':
             # a stand-alone BN must be searchable too, or it pins the width of what it consumes
             orig = net.layers[nid]
-            net.layers[nid] = (PITBatchNorm1d if spec['family'] == '1d' else PITBatchNorm2d)(orig)
+            net.layers[nid] = (PITBatchNorm2d if len(shapes[n['in'][0]]) == 3 else
+                               PITBatchNorm1d)(orig)
             continue
         if n['op'] not in ng.LAYER_OPS or nid in plain:
             continue
